@@ -43,9 +43,24 @@ type handlerWithLogs struct {
 	counterMutex       sync.Mutex
 	counter            map[string]int
 
+	// written by the main loop when the participant joins, read by the sender, receiver and
+	// summary goroutines
+	identityMutex sync.RWMutex
 	sessionID     string
 	sessionUUID   string
 	participantID uint32
+}
+
+func (h *handlerWithLogs) setIdentity(sessionID, sessionUUID string, participantID uint32) {
+	h.identityMutex.Lock()
+	h.sessionID, h.sessionUUID, h.participantID = sessionID, sessionUUID, participantID
+	h.identityMutex.Unlock()
+}
+
+func (h *handlerWithLogs) identity() (sessionID, sessionUUID string, participantID uint32) {
+	h.identityMutex.RLock()
+	defer h.identityMutex.RUnlock()
+	return h.sessionID, h.sessionUUID, h.participantID
 }
 
 func (h *handlerWithLogs) HandleConnect(conn *websocket.Conn) {
@@ -90,9 +105,7 @@ func (h *handlerWithLogs) HandleParticipantJoin(ctx context.Context, handleFrame
 		return nil
 	}
 
-	h.sessionID = h.GetSessions().GlobalSessionID(h.CurrentSession().ID)
-	h.sessionUUID = h.CurrentSession().SessionUUID
-	h.participantID = h.CurrentParticipant().ID
+	h.setIdentity(h.GetSessions().GlobalSessionID(h.CurrentSession().ID), h.CurrentSession().SessionUUID, h.CurrentParticipant().ID)
 
 	logs.WithClientID(h.GetClientID()).
 		WithTag(logs.AppKeyTag, h.appKey).
@@ -128,19 +141,20 @@ func (h *handlerWithLogs) Receiver() hwebsocket.Receiver {
 
 	return func() (hwebsocket.Msg, int, error) {
 		msg, n, err := receive()
+		sessionID, sessionUUID, participantID := h.identity()
 		if err != nil && !errors.Is(err, io.EOF) && !errors.Is(err, net.ErrClosed) {
 			logs.WithClientID(h.GetClientID()).
 				WithTag(logs.AppKeyTag, h.appKey).
-				WithTag(logs.SessionIDTag, h.sessionID).
-				WithTag("session_uuid", h.sessionUUID).
-				WithTag(logs.ParticipantIDTag, h.participantID).
+				WithTag(logs.SessionIDTag, sessionID).
+				WithTag("session_uuid", sessionUUID).
+				WithTag(logs.ParticipantIDTag, participantID).
 				Error(errors.New("receiving message failed").Wrap(err))
 		} else if err == nil {
 			logs.WithClientID(h.GetClientID()).
 				WithTag(logs.AppKeyTag, h.appKey).
-				WithTag(logs.SessionIDTag, h.sessionID).
-				WithTag("session_uuid", h.sessionUUID).
-				WithTag(logs.ParticipantIDTag, h.participantID).
+				WithTag(logs.SessionIDTag, sessionID).
+				WithTag("session_uuid", sessionUUID).
+				WithTag(logs.ParticipantIDTag, participantID).
 				WithTag("msg_type", msg.TypeString()).
 				Debug("message received")
 			h.incCounter(msg.TypeString())
@@ -157,20 +171,21 @@ func (h *handlerWithLogs) Sender() hwebsocket.Sender {
 		msgType := msg.TypeString()
 
 		n, err := sender(msg)
+		sessionID, sessionUUID, participantID := h.identity()
 		if err != nil && !errors.Is(err, net.ErrClosed) {
 			logs.WithClientID(h.GetClientID()).
 				WithTag(logs.AppKeyTag, h.appKey).
-				WithTag(logs.SessionIDTag, h.sessionID).
-				WithTag("session_uuid", h.sessionUUID).
-				WithTag(logs.ParticipantIDTag, h.participantID).
+				WithTag(logs.SessionIDTag, sessionID).
+				WithTag("session_uuid", sessionUUID).
+				WithTag(logs.ParticipantIDTag, participantID).
 				WithTag("msg_type", msgType).
 				Error(errors.New("sending message failed").Wrap(err))
 		} else if err == nil {
 			logs.WithClientID(h.GetClientID()).
 				WithTag(logs.AppKeyTag, h.appKey).
-				WithTag(logs.SessionIDTag, h.sessionID).
-				WithTag("session_uuid", h.sessionUUID).
-				WithTag(logs.ParticipantIDTag, h.participantID).
+				WithTag(logs.SessionIDTag, sessionID).
+				WithTag("session_uuid", sessionUUID).
+				WithTag(logs.ParticipantIDTag, participantID).
 				WithTag("msg_type", msgType).
 				Debug("message sent")
 		}
@@ -214,12 +229,13 @@ func (h *handlerWithLogs) logSummary() {
 		return
 	}
 
+	sessionID, sessionUUID, participantID := h.identity()
 	entry := logs.
 		WithClientID(h.GetClientID()).
 		WithTag(logs.AppKeyTag, h.appKey).
-		WithTag(logs.ParticipantIDTag, h.participantID).
-		WithTag(logs.SessionIDTag, h.sessionID).
-		WithTag("session_uuid", h.sessionUUID).
+		WithTag(logs.ParticipantIDTag, participantID).
+		WithTag(logs.SessionIDTag, sessionID).
+		WithTag("session_uuid", sessionUUID).
 		WithTag("time_interval", h.summaryInterval)
 
 	for k, v := range h.counter {
